@@ -176,6 +176,97 @@ m('C02-fetch-error-fails-set-again', H, '''            Err(e) => {
                 return;
             }''', [])
 
+# --- concurrency mutants: the plugin runs on a multi-threaded runtime; these only misbehave when one task is
+# --- descheduled between two of its synchronisation operations (found through Park deviations, DESIGN 2.9)
+m('SCHED-handler-check-then-act', H, '''        {
+            let mut payments = self.payments.lock().await;
+            let payment_state = payments
+                .entry(*trampoline.invoice.payment_hash())
+                .or_insert_with(|| {
+                    // If the payment did not yet exist, spawn the payment lifecycle.
+                    let (s1, r1) = mpsc::channel(1);
+                    let (s2, r2) = mpsc::channel(1);
+                    tokio::spawn(payment_lifecycle(
+                        Arc::clone(&self.params),
+                        Arc::clone(&self.payments),
+                        trampoline.clone(),
+                        r1,
+                        r2,
+                    ));
+
+                    // And insert the payment into the hashmap.
+                    PaymentState::new(trampoline.clone(), s1, s2)
+                });
+''', '''        let known = self
+            .payments
+            .lock()
+            .await
+            .contains_key(trampoline.invoice.payment_hash());
+        if !known {
+            // If the payment did not yet exist, spawn the payment lifecycle.
+            let (s1, r1) = mpsc::channel(1);
+            let (s2, r2) = mpsc::channel(1);
+            tokio::spawn(payment_lifecycle(
+                Arc::clone(&self.params),
+                Arc::clone(&self.payments),
+                trampoline.clone(),
+                r1,
+                r2,
+            ));
+            self.payments.lock().await.insert(
+                *trampoline.invoice.payment_hash(),
+                PaymentState::new(trampoline.clone(), s1, s2),
+            );
+        }
+        {
+            let mut payments = self.payments.lock().await;
+            let payment_state = payments
+                .get_mut(trampoline.invoice.payment_hash())
+                .expect("payment state was just inserted");
+''', ['C05','C06','C07','C02'])
+m('SCHED-state-taken-out-and-put-back', H, '''    let (max_fee_msat, cltv_expiry) = {
+        let payments = payments.lock().await;
+        let payment = payments
+            .get(trampoline.invoice.payment_hash())
+            .expect("Payment is ready for paying, but payment was already gone.");
+        let max_fee_msat = payment
+            .amount_received_msat
+            .saturating_sub(trampoline.amount_msat);
+        (max_fee_msat, payment.cltv_expiry)
+    };
+''', '''    let (max_fee_msat, cltv_expiry) = {
+        let payment = payments
+            .lock()
+            .await
+            .remove(trampoline.invoice.payment_hash())
+            .expect("Payment is ready for paying, but payment was already gone.");
+        let max_fee_msat = payment
+            .amount_received_msat
+            .saturating_sub(trampoline.amount_msat);
+        let cltv_expiry = payment.cltv_expiry;
+        payments
+            .lock()
+            .await
+            .insert(*trampoline.invoice.payment_hash(), payment);
+        (max_fee_msat, cltv_expiry)
+    };
+''', ['C06','C05','C07','C02'])
+m('SCHED-height-lost-update', B, '''    let mut current_height = current_height.lock().await;
+    let updated = if new_height > *current_height {
+        *current_height = new_height;
+        Some(*current_height)
+    } else {
+        None
+    };
+''', '''    let known = *current_height.lock().await;
+    let updated = if new_height > known {
+        *current_height.lock().await = new_height;
+        Some(new_height)
+    } else {
+        None
+    };
+''', ['C20','C04'])
+
 def sh(cmd, cwd=None, timeout=3600):
     return subprocess.run(cmd, shell=True, cwd=cwd, capture_output=True, text=True, timeout=timeout)
 
